@@ -47,6 +47,10 @@ type Exec struct {
 	setofMemo    map[string]string
 	anchorHits   map[string]int
 	storeInfo    map[string][2]string
+	allocSeq     int
+	freshRefs    map[string]int
+	discStack    []*discovery
+	firstSec     *State
 }
 
 type deadPanic struct{}
